@@ -65,7 +65,7 @@ def _progs(tier: str) -> List[Dict[str, Any]]:
             out.append({"prog": {"items": [["op", k], ["op", "gelu:F"]], "sink": "sum"}, "fmt": FORMATS[n % 4], "pre": pre})
     # two transformed copies of the same module with DIFFERENT formats, called alternately
     for n, k in enumerate(LIN + ULIN + ATT):
-        out.append({"prog": {"items": [["op", k], ["op", "tanh"]], "sink": "sum"}, "fmt": FORMATS[n % 4], "other_fmt": FORMATS[(n + 1) % 4]})
+        out.append({"prog": {"items": [["op", k], ["op", "tanh"]], "sink": "sum"}, "fmt": FORMATS[n % 4], "other_fmt": FORMATS[(n + 1) % 4], "fresh": True})
     for n, (a, b) in enumerate(itertools.product(ALL, ALL)):
         out.append({"prog": {"items": [["op", a], ["op", b]], "sink": "mse" if n % 3 == 0 else "sum"}, "fmt": FORMATS[n % 4]})
     for n, items in enumerate(spines(SPINE, SMALL + ["linear:F_nobias", "sdpa:plain"], 1 if tier == "quick" else 2)):
